@@ -75,6 +75,9 @@ func genHpackTables(repo string) (string, error) {
 //	h2_dispatch_continues       stream/http2/stream.go Dispatch (server and client): a StreamError does not leave the decode loop
 //	h2_hpack_at_u64cmp          hpack.go Decoder.at: the dynamic-table range test compares the uint64 index (`i > uint64(d.maxTableIndex())`, true)
 //	                            or the converted int (`pos := int(i) - staticTable.len(); if pos > dt.len()`, false)
+//	h2_hdr_split_last_le        mhttp2.go MServerConn.writeHeaders / MClientConn.writeHeaders: the fragment that completes the header block
+//	                            (END_HEADERS) is the one for which the remaining block is <= maxFrameSize (true: today's loops
+//	                            `if len(frag) > maxFrameSize {cut}` + `len(rest) == 0`, or a helper testing `<=`) or < maxFrameSize (false)
 //	h2_hpack_multi_update       hpack.go Decoder.Write: `d.firstField = false` in the parse loop is guarded by `if !sizeUpdate` (true) or unconditional (false)
 func genH2Src(repo string) (string, error) {
 	var b strings.Builder
@@ -354,6 +357,66 @@ func genH2Src(repo string) (string, error) {
 		ok = false
 		b.WriteString("Definition h2_dispatch_continues := false.\n")
 	}
+	// --- header block fragmentation of the two writeHeaders
+	splitLe := ""
+	lenOf := func(e ast.Expr) string {
+		if c, isCall := e.(*ast.CallExpr); isCall && len(c.Args) == 1 {
+			if f, isF := c.Fun.(*ast.Ident); isF && f.Name == "len" {
+				if id, isId := c.Args[0].(*ast.Ident); isId {
+					return id.Name
+				}
+			}
+		}
+		return ""
+	}
+	if fd := FindFunc(mf, "", "nextHeaderFragment"); fd != nil {
+		ast.Inspect(fd.Body, func(n ast.Node) bool {
+			if be, isBe := n.(*ast.BinaryExpr); isBe && lenOf(be.X) != "" {
+				if id, isId := be.Y.(*ast.Ident); isId && id.Name == "maxFrameSize" {
+					switch be.Op {
+					case token.LSS:
+						splitLe = "false"
+					case token.LEQ:
+						splitLe = "true"
+					}
+				}
+			}
+			return true
+		})
+	} else {
+		good := 0
+		for _, recv := range []string{"MServerConn", "MClientConn"} {
+			fd := FindFunc(mf, recv, "writeHeaders")
+			if fd == nil {
+				continue
+			}
+			cut, end := false, false
+			ast.Inspect(fd.Body, func(n ast.Node) bool {
+				be, isBe := n.(*ast.BinaryExpr)
+				if !isBe || lenOf(be.X) == "" {
+					return true
+				}
+				if id, isId := be.Y.(*ast.Ident); isId && id.Name == "maxFrameSize" && be.Op == token.GTR {
+					cut = true // if len(frag) > maxFrameSize { frag = frag[:maxFrameSize] }
+				}
+				if lit, isLit := be.Y.(*ast.BasicLit); isLit && lit.Value == "0" && be.Op == token.EQL {
+					end = true // END_HEADERS: len(rest) == 0
+				}
+				return true
+			})
+			if cut && end {
+				good++
+			}
+		}
+		if good == 2 {
+			splitLe = "true"
+		}
+	}
+	if splitLe == "" {
+		ok = false
+		splitLe = "false"
+	}
+	fmt.Fprintf(&b, "Definition h2_hdr_split_last_le := %s.\n", splitLe)
 	// --- hpack Decoder.Write
 	_, hf, err := ParseGoFile(repo, "pkg/module/http2/hpack/hpack.go")
 	if err != nil {
